@@ -219,6 +219,27 @@ def stage_inserttxn(ctx, cov):
     return {"traces": [(o, "Trace_InsertTxn") for o in outs]}
 
 
+def stage_removetxn(ctx, cov):
+    """MC of the removal-transaction model (atomic flips: AllOrNothing holds; as coded: the known non-atomic flip shows
+    as a design counterexample), then every as-coded behaviour replayed through failpoint scripts"""
+    for run in (stage_mc("RemoveTxn.tla", "MC_RemoveTxn_atomic.cfg", workers=1),
+                stage_mc("RemoveTxn.tla", "MC_RemoveTxn_ascoded.cfg", workers=1, expect_violation=["AllOrNothing"])):
+        r = run(ctx, cov)
+        if r.get("tool_error") or r.get("violations"):
+            return r
+    rc, txt = ctx.run_tlc("RemoveTxn.tla", "Gen_RemoveTxn.cfg", os.path.join(ctx.wdir, "genrtxn_meta"), workers=1, timeout=900, xmx="2g")
+    if rc is None or "Model checking completed" not in txt:
+        return {"tool_error": "Gen_RemoveTxn failed:\n" + (txt or "")[-2000:]}
+    scripts = sorted({mm.group(1).encode().decode("unicode_escape") for mm in (RE_REPLAY.match(l.strip()) for l in txt.split("\n")) if mm})
+    cov["generated_scripts"] = cov.get("generated_scripts", 0) + len(scripts)
+    sf = os.path.join(ctx.wdir, "rtxn_scripts.ndjson")
+    open(sf, "w").write("\n".join(scripts) + "\n")
+    outs, err = drive_family(ctx, "removetxn", 2, ["--hist", sf])
+    if err:
+        return {"tool_error": err}
+    return {"traces": [(o, "Trace_RemoveTxn") for o in outs]}
+
+
 def stage_family(ctx, fam, nparts, module, extra=None):
     outs, err = drive_family(ctx, fam, nparts, extra)
     if err:
@@ -363,7 +384,8 @@ PLANS = {
                      "distinct non-trivial = distinct Verdicts events (history tag + position)",
                 nontrivial=None),
     "C06": dict(level="model_checking", families=[("remove", 14, 16)],
-                rule="removal of randomly chosen vertices down to the empty triangulation, unknown vertices, "
+                stages=[stage_removetxn],
+                rule="(i) the removal transaction model RemoveTxn.tla checked and replayed through failpoint scripts (see C03); (ii) removal of randomly chosen vertices down to the empty triangulation, unknown vertices, "
                      "re-insertion of removed positions; distinct non-trivial = distinct successful Remove events",
                 nontrivial=_key_event({"Remove"})),
     "C07": dict(level="model_checking", families=[("flips", 14, 16)],
@@ -493,8 +515,10 @@ PLANS = {
                             "spec-generated exact vectors replayed into the implementation.",
                 nontrivial=lambda e: ((e["ev"], json.dumps(e.get("args"), sort_keys=True)) if e["ev"] == "Measure" else None)),
     "C03": dict(level="fault_enumeration", families=[("failpoints", 14, 16), ("remove", 6, 16), ("insert", 6, 16), ("flips", 6, 16), ("repair", 6, 16)],
-                stages=[stage_inserttxn],
-                rule="(o) the insertion transaction model InsertTxn.tla (AllOrNothing over all policies / counts / choices) and the "
+                stages=[stage_inserttxn, stage_removetxn],
+                rule="(o') the removal transaction model RemoveTxn.tla (fast inverse-k=1 path, fan path with clone / restore, "
+                     "post-removal repair with outer snapshot), AllOrNothing with atomic flips and its failure as coded (KF-C03-1), "
+                     "all behaviours replayed through failpoint scripts (Trace_RemoveTxn); (o) the insertion transaction model InsertTxn.tla (AllOrNothing over all policies / counts / choices) and the "
                      "replay of all its behaviours through failpoint scripts; (i) FAILPOINTS: for insert / insert_with_statistics (interior, exterior), remove_vertex, Edit-API flips (k=1,2,3) "
                      "and both repair entry points on bases in D=2..4 under three policy settings, a discovery run lists the "
                      "cfg(delaunay_verif) failpoint sites the call passes (insert attempt failing non-retryably / retryably "
